@@ -1180,7 +1180,13 @@ std::string eval_macro_callback(
     // the expression may well evaluate to nil (no data behind the value)
     return success ? res.to_string_sqf() : "";
 }
-static int __counter__ = 0;
+// The counter belongs to the runtime the preprocessor works for, not to the process.
+class counter_storage : public ::sqf::runtime::runtime::datastorage
+{
+public:
+    int value = 0;
+    virtual ~counter_storage() override {}
+};
 std::string counter_macro_callback(
     const ::sqf::runtime::parser::macro& m,
     const ::sqf::runtime::diagnostics::diag_info dinf,
@@ -1188,7 +1194,7 @@ std::string counter_macro_callback(
     const std::vector<std::string>& params,
     ::sqf::runtime::runtime& runtime)
 {
-    return std::to_string(__counter__++);
+    return std::to_string(runtime.storage<counter_storage>().value++);
 }
 std::string counter_reset_macro_callback(
     const ::sqf::runtime::parser::macro& m,
@@ -1197,7 +1203,7 @@ std::string counter_reset_macro_callback(
     const std::vector<std::string>& params,
     ::sqf::runtime::runtime& runtime)
 {
-    __counter__ = 0;
+    runtime.storage<counter_storage>().value = 0;
     return "";
 }
 
